@@ -58,9 +58,27 @@ func c02(e *Env) {
 		name = "held"
 		p.HoldReplies = true
 		p.MaxInflight = 64
+	case shape == 4 || shape == 5:
+		// a node stops answering for a while and then answers everything late, while the
+		// proxy's own heartbeats time out and few stream ids are left (tuning knob: stream ids
+		// per backend connection), so that ids are reused while late answers are still to come
+		name = "late"
+		cfg.MaxStreams = int16(3 + c.Choose("maxstreams", 6))
+		p.Hosts, p.NumConns = 1+c.Choose("lhosts", 2), 1
+		p.Clients = 1 + c.Choose("lclients", 2)
+		p.OpsPerClient, p.MaxInflight = 100000, 100000
+		p.ErrPerMille = 0
+		p.Kinds = []int{80, 4, 10, 6, 0, 3}
 	}
 	f := newFwd(e, p, cfg)
 	if !f.bootOK() || !f.connectClients() {
+		return
+	}
+	if name == "late" {
+		c02Late(e, f, int(cfg.MaxStreams))
+		e.Res.Sample = "shape=" + name + " " + f.sample()
+		e.Res.Shape = fmt.Sprintf("%s h%d cl%d m%d", name, p.Hosts, p.Clients, cfg.MaxStreams)
+		e.Res.Stats["probe.c02.shape."+name]++
 		return
 	}
 	drained := f.runWorkload(10 * time.Minute)
@@ -74,4 +92,65 @@ func c02(e *Env) {
 		e.Res.Stats["probe.c02.all_backend_streams_in_use"]++
 	}
 	_ = drained
+}
+
+// c02Late: phases instead of a free-running workload. (A) a little traffic; (B) one node stalls
+// and more requests are sent, so that some of its stream ids are held by unanswered requests;
+// (C) simulated time passes - 0 to 75 s, i.e. before, between and after the proxy's heartbeat
+// (30 s), the heartbeat's time-out (10 s later) and the idle time-out (60 s) - (D) more
+// requests are sent, reusing whatever stream ids are free; (E) the node answers everything it
+// has read, late and in order, or dies. Every answer must still reach its own request.
+func c02Late(e *Env, f *fwd, m int) {
+	c, w := e.C, f.w
+	w.OnReply = f.onReply
+	w.OnAttempt = f.onAttempt
+	left := 0
+	var en []int
+	w.Workload = func() int {
+		if left <= 0 {
+			return 0
+		}
+		en = f.enabledClients()
+		return len(en)
+	}
+	w.DoWork = func(i int) { f.sendOne(en[i]); left-- }
+	send := func(n int) bool {
+		left = n
+		return w.RunUntil(func() bool { return left <= 0 || len(f.enabledClients()) == 0 }, time.Hour)
+	}
+	if !send(2+c.Choose("lateA", 8)) || !w.RunUntil(f.allAnswered, 5*time.Minute) {
+		return
+	}
+	n := w.Nodes[c.Choose("latenode", len(w.Nodes))]
+	n.Stalled = true
+	w.Logf("node %s: stall begins", n)
+	if !send(c.Choose("lateB", m+3)) {
+		return
+	}
+	wait := []time.Duration{0, 5 * time.Second, 25 * time.Second, 32 * time.Second, 41 * time.Second, 45 * time.Second, 55 * time.Second, 62 * time.Second, 75 * time.Second}[c.Choose("latewait", 9)]
+	target := w.Now() + wait
+	w.RunUntil(func() bool { return w.Now() >= target }, wait+time.Second)
+	if w.Stopped() {
+		return
+	}
+	if !send(c.Choose("lateD", 2*m+3)) {
+		return
+	}
+	w.Quiesce()
+	if c.Choose("lateend", 4) == 3 {
+		n.Crash()
+		n.Stalled = false
+		if len(f.liveNodes()) == 0 {
+			n.Restart()
+		}
+	} else {
+		n.Unstall()
+	}
+	w.Workload = nil
+	if w.RunUntil(f.allAnswered, 10*time.Minute) {
+		e.Res.Stats["probe.c02.late.drained"]++
+	}
+	if w.Stats["backend.stalled_frame"] > 0 {
+		e.Res.Stats["probe.c02.late.frames_read_late"]++
+	}
 }
